@@ -644,12 +644,12 @@ class BinaryOp(Expr):
         if ltype == rtype == Type.STRING and self.op != Operator.ADD:
             return Type.UNKNOWN
 
-        if self.op == Operator.MOD:
+        if self.op in (Operator.MOD, Operator.INTDIV):
             if not ltype.is_numeric or not rtype.is_numeric:
                 return Type.UNKNOWN
 
-            # MOD always coerces its args to an integer and then
-            # calculates the result which is always an integral value.
+            # MOD and \ always coerce their args to an integer and then
+            # calculate the result which is always an integral value.
             if ltype == Type.INTEGER and rtype == Type.INTEGER:
                 return Type.INTEGER
             else:
